@@ -286,7 +286,9 @@ class Distribution(Generic[R], GenerativeFunction[R]):
             else:
                 chm = trace.get_choices()
                 primals = Diff.tree_primal(argdiffs)
-                new_score, _ = self.assess(chm, primals)
+                # re-score the kept value under the new arguments (as the update path does;
+                # `assess` exists only for exact densities)
+                new_score = self.estimate_logpdf(key, chm.get_value(), *primals)
                 new_trace = DistributionTrace(self, primals, chm.get_value(), new_score)
                 return (
                     new_trace,
